@@ -18,11 +18,11 @@ VEC_RULE = ("engine vec — exhaustive: (A) initial contents of length 0..3 x ev
             "histories of 10..50 (80) steps with up to 4 subscribers of both flavours created/dropped/polled at random, capacities {1,2,3,5,7,16,64}, entries, "
             "transactions, final drop of the vector. Every case is non-trivial (it mutates and delivers); distinct = distinct (ops, results) traces.")
 
-def vec_prop(mods, expl, extra_assump=()):
+def vec_prop(mods, expl, extra_assump=(), engines=None):
     return {
         "level": "proof",
         "lean_modules": mods,
-        "engines": [{"name": "vec"}],
+        "engines": engines or [{"name": "vec"}],
         "rule": VEC_RULE,
         "exhaustive": True,
         "trusted_base": [KERNEL, CORR, IMBL, TOKIO_BC],
@@ -80,7 +80,7 @@ PROPS = {
         technique="Lean 4 proof (induction over the traversal loop, case analysis per mutator) + model/implementation correspondence",
         design_ref="DESIGN.md §6 C17"),
     "C05": dict(vec_prop(["EyeballVerif.Props.C05", "EyeballVerif.Props.StreamReach"],
-        "c05_replay_inv (at every reachable state — any capacity, any finite sequence of updates, traversals, transactions, subscriptions, drops and polls — every live receiver's replica is defined and replaying what the channel still owes it yields the current contents), c05_delivered_applicable, c05_caught_up_equal, c05_never_panics; c05_exec_faithful: for every mutator and contents, the recorded diff replayed strictly on the contents before gives the contents after; no diff only if nothing changed; every diff is validOn the contents"),
+        "c05_replay_inv (at every reachable state — any capacity, any finite sequence of updates, traversals, transactions, subscriptions, drops and polls — every live receiver's replica is defined and replaying what the channel still owes it yields the current contents), c05_delivered_applicable, c05_caught_up_equal, c05_never_panics; c05_exec_faithful: for every mutator and contents, the recorded diff replayed strictly on the contents before gives the contents after; no diff only if nothing changed; every diff is validOn the contents", engines=[{"name": "vec"}, {"name": "vconc"}]),
         claim=("Lean 4 theorems: stream invariant VInv preserved by every event (vinv_vstep) hence c05_replay_inv at every reachable state: every delivered diff was applicable to the subscriber's replica, and replica + still-owed diffs = current contents; c05_exec_faithful (every call's diff, replayed strictly on the state before, yields the state after; documented no-ops record nothing; exactly one diff otherwise) "
                "plus the receiver-level theorems shared with C06/C08; tied to the code by the vec engine, whose implementation-side oracle replays every delivered diff on a strict replica "
                "and compares it with the vector after every message, for plain and batched streams."),
@@ -88,7 +88,7 @@ PROPS = {
         design_ref="DESIGN.md §6 C05"),
     "C06": dict(vec_prop(["EyeballVerif.Props.C06", "EyeballVerif.Props.StreamReach"],
         "c06_lagged_reset_current (at every reachable state a receiver more than a window behind gets exactly Reset(current contents) and is then in sync), c06_pending_synced (Pending only to a receiver whose replica equals the contents); c06_plain_reset / c06_batched_reset: a Reset is handed out only when more than B messages were pending, carries the newest recorded state and consumes the log; "
-        "c06_window_ge_capacity: B >= capacity; c06_batched_consumes_all; c06_pending_consumed_all — for every log, window size and cursor"),
+        "c06_window_ge_capacity: B >= capacity; c06_batched_consumes_all; c06_pending_consumed_all — for every log, window size and cursor", engines=[{"name": "vec"}, {"name": "vconc"}]),
         claim=("Lean 4 theorems: at every reachable state (any event sequence) a lagged receiver is handed Reset(current contents) and is in sync afterwards (c06_lagged_reset_current), Pending is answered only to a receiver in sync (c06_pending_synced); over every log, window size B, cursor and closed flag: Reset only if more than B >= capacity messages were pending and it carries the newest message's state "
                "(c06_plain_reset, c06_batched_reset, c06_window_ge_capacity); Pending only when nothing is left to deliver (c06_pending_consumed_all); a batched item consumes everything "
                "(c06_batched_consumes_all). Tied to the code by lag scenarios over capacities 1..8 (exhaustive in the number of unpolled updates) and random histories."),
@@ -104,7 +104,7 @@ PROPS = {
         design_ref="DESIGN.md §6 C07"),
     "C08": dict(vec_prop(["EyeballVerif.Props.C08", "EyeballVerif.Props.StreamReach"],
         "c08_end_final (at every reachable state a stream ends only after the vector was dropped and with the replica equal to the final contents); c08_no_early_end: for every log/window/receiver state a poll on an open channel never reports the end; c08_end_consumed_all: the end is reported only with the cursor at the end of the log; "
-        "c08_lagged_after_drop_gets_final: a lagging receiver of a dropped vector first receives Reset(final state); c08_drop_wakes"),
+        "c08_lagged_after_drop_gets_final: a lagging receiver of a dropped vector first receives Reset(final state); c08_drop_wakes", engines=[{"name": "vec"}, {"name": "vconc"}]),
         claim=("Lean 4 theorems: at every reachable state the end is reported only after the drop and to a receiver whose replica equals the final contents (c08_end_final); over every log, window and receiver state: no end-of-stream while the sender exists (c08_no_early_end); the end is reported only after everything was delivered "
                "(c08_end_consumed_all); a receiver that lagged when the vector was dropped is first reset to the final state (c08_lagged_after_drop_gets_final — the repaired defect D6); dropping "
                "wakes every parked receiver (c08_drop_wakes). Tied to the code by drop scenarios for every capacity 1..8 x lag depth x flavour."),
@@ -271,7 +271,7 @@ PROPS.update({
     "C20": dict(obs_prop(["EyeballVerif.Props.C20"],
         "c20_ledger_step / c20_ledger_run: after any sequence of calls every instance ever created (construction or clone) is in exactly one of {held by the library, handed to the caller, destroyed by the library}, "
         "exactly once; c20_held_one: the library holds exactly one instance until the state is destroyed, none afterwards; c20_all_accounted",
-        [{"name": "own"}], extra_tb=["memory safety of the three unsafe blocks (reuse_pin_box layout equality, ptr::read + forget in into_shared, unreachable_unchecked) is outside any executable model: validated by the "
+        [{"name": "own"}, {"name": "own@miri", "tier": "thorough"}], extra_tb=["memory safety of the three unsafe blocks (reuse_pin_box layout equality, ptr::read + forget in into_shared, unreachable_unchecked) is outside any executable model: validated by the "
                                      "instrumented runs (double drops / leaks would show) and, in the thorough tier, by Miri — not proved"]),
         claim=("PARTIAL. Lean 4 theorems about the ownership ledger of the eyeball crate: each call moves instances between 'held by the library', 'handed to the caller' and 'destroyed'; for every call sequence "
                "the three sets partition all instances ever created, each exactly once (c20_ledger_run — no double drop, no leak, no drop while held), and the library holds exactly the current value until the "
@@ -299,6 +299,8 @@ ENGINES = [
      "kind_free_text": "differential correspondence (real VectorDiff vs Lean model) + implementation-side oracle"},
     {"name": "vec", "path": "harness/src/eng_vec.rs", "serves_properties": ["C05", "C06", "C07", "C08", "C17"],
      "kind_free_text": "differential correspondence (real ObservableVector/subscriber streams vs Lean model OV) + implementation-side oracles (strict replica, plain-vector reference, pending-message ledger, wake flags)"},
+    {"name": "vconc", "path": "harness/src/eng_vconc.rs", "serves_properties": ["C05", "C06", "C08"],
+     "kind_free_text": "writer on its own thread against plain and batched subscriber streams polled on two other threads (a poll is no longer atomic w.r.t. updates: the Lagged arms inside the drain loops); implementation-side oracles only (strict applicability, replica = final contents, End iff dropped) — the interleaving is not recorded, so there is no model trace"},
     {"name": "adp", "path": "harness/src/eng_adp.rs", "serves_properties": ["C09", "C10", "C11", "C12", "C13", "C14", "C15"],
      "kind_free_text": "differential correspondence (real adapter pipelines vs Lean model Pipe) + implementation-side oracles on transparent taps between the stages"},
     {"name": "obs", "path": "harness/src/eng_obs.rs", "serves_properties": ["C01", "C02", "C03", "C19"],
